@@ -167,7 +167,7 @@ Definition filter_ops (st : site) (f : field) (allow : list string) (x : vals) :
 Definition gql_ops (g : gql) (x : vals) : list op :=
   (match g_kind g with
    | GQuery => [ORd FStruct; ORd FPar]
-   | GMutation => ORd FStruct :: (if has_body_x x then [ORd FBody; OWr FBody (VBody "")] else [])
+   | GMutation => ORd FStruct :: (if has_body_x x then [ORd FBody; OWr FBody VClosed] else [])
    end ++
    match g_out g with
    | None => []
@@ -191,7 +191,7 @@ Definition lb_ops (b : backend) (x : vals) : list op :=
                 | VStruct m p _ => VStruct m p (Some ((b_host b ++ p)%string, url_query (qry_x x)))
                 | v => v end)].
 Definition http_ops (x : vals) : list op :=
-  ORd FVals :: ORd FStruct :: ORd FHdr :: (if has_body_x x then [ORd FBody; OWr FBody (VBody "")] else []).
+  ORd FVals :: ORd FStruct :: ORd FHdr :: (if has_body_x x then [ORd FBody; OWr FBody VClosed] else []).
 Definition rb_ops (b : backend) (x : vals) : list op :=
   [ORd FStruct; ORd FPar;
    OWr FStruct (match x FStruct with
@@ -711,15 +711,15 @@ Qed.
    interleaving, the goroutine of every attempt of every backend that has run to its end
    was handed exactly what the backend is handed as the endpoint's only backend *)
 Theorem isolated_every_interleaving cfg q sched s t k b alone :
-  in_scope cfg q = true ->
+  race_free_b cfg q = true ->
   run obj_eqb (init (endpoint_prog cfg q) (init_heap q)) sched = Some s ->
   In t (pool s) -> rem t = [] ->
   nth_error cfg k = Some b -> In (tid t) (leaf_tids (List.length cfg) k b) ->
   In alone (sent_seq (solo cfg k) q 0) ->
   sent_of_log (log t) = alone.
 Proof.
-  intros Hsc Hrun Ht Hrem Hk Htid Hal.
-  pose proof (finished_log cfg q sched s t (all_configs cfg q Hsc) Hrun Ht Hrem) as Hin.
+  intros Hrf Hrun Ht Hrem Hk Htid Hal.
+  pose proof (finished_log cfg q sched s t Hrf Hrun Ht Hrem) as Hin.
   rewrite (leaf_log_in cfg q k b (tid t) (log t) Hk Htid Hin).
   destruct (solo_nth cfg k b Hk) as [_ E0]. symmetry. apply (sent_independent (solo cfg k) q 0 b alone E0 Hal).
 Qed.
